@@ -129,7 +129,7 @@ Lemma p_published_or_pending k r : nth_error (w_hist w) k = Some r ->
   In (route (N.of_nat k + 1)%N r) (w_outbox w) \/ published w r.
 Proof. apply (wi_pub c w final_WI). Qed.
 
-Lemma p_nothing_invented e : In e (w_log w) -> exists r, In r (w_hist w) /\ ev_of e (route 0%N r).
+Lemma p_nothing_invented e : In e (w_log w) -> conn_topic (e_topic e) = false -> exists r, In r (w_hist w) /\ ev_of e (route 0%N r).
 Proof. apply (wi_logh c w final_WI). Qed.
 
 Lemma p_outbox_of_writes o : In o (w_outbox w) -> entry_at (w_hist w) o.
